@@ -1479,7 +1479,7 @@ func c05FileIdentity(r *an.Run) {
 		}
 		n++
 		a := c.Common().Args
-		r.Check(actualIn(f, a[len(a)-1]) == m.fout, short(f)+"|printed-tree", c.Pos(), "the tree that is printed is the one the patches produced for this file")
+		r.Check(liftIn(f, a[len(a)-1]) == m.fout, short(f)+"|printed-tree", c.Pos(), "the tree that is printed is the one the patches produced for this file")
 	}
 	r.Check(n == 1, short(f)+"|one-print", f.Pos(), "the rewritten tree is printed once per file (found %d format.Node calls in the loop)", n)
 	// every sink that names a file names this one
@@ -1490,7 +1490,29 @@ func c05FileIdentity(r *an.Run) {
 				continue
 			}
 			nw++
+			var elem ssa.Value
+			if s.host != f {
+				// the output stage lives in a function of its own: the path as Run hands it over
+				if la := liftIn(f, a); la != nil {
+					a = la
+				} else {
+					elem = liftStructOf(f, a) // a field of the list element that Run itself never selects
+				}
+			}
 			ok := sameFileValue(a, m.filename)
+			if !ok && elem != nil {
+				// a field of the very struct value m.filename is a field of
+				if ld, isLoad := elem.(*ssa.UnOp); isLoad {
+					if fl, isLoad2 := an.Unwrap(m.filename).(*ssa.UnOp); isLoad2 {
+						if fa, isFA := fl.X.(*ssa.FieldAddr); isFA && fa.X == ld.X {
+							ok = true
+						}
+					}
+				}
+				if fl, isField := an.Unwrap(m.filename).(*ssa.Field); isField && fl.X == elem {
+					ok = true
+				}
+			}
 			if !ok {
 				// the user-facing spelling of the same loop element (diff header)
 				ok = sameLoopElement(a, m.filename)
@@ -2080,11 +2102,7 @@ func c07WrittenFileStartsEmpty(r *an.Run, m *runModel) {
 				n++
 				recv := c.Common().Args[0]
 				good, why := false, "the file written to is not one this function created or truncated"
-				for v := range sliceAcross(recv) {
-					call, ok := v.(*ssa.Call)
-					if !ok {
-						continue
-					}
+				for _, call := range creatingCalls(recv) {
 					switch {
 					case an.IsCallTo(call, "os.CreateTemp", "os.Create"):
 						good = true
@@ -2641,4 +2659,62 @@ func positionsReadBeforeStrip(r *an.Run, rule string) {
 	}
 	r.Count("callers of the marker strip", n)
 	r.Min("callers of the marker strip", 1)
+}
+
+// creatingCalls returns the calls whose result the value v is (through phis,
+// tuple extracts, local variables, parameters bound at their only call site
+// and results of private helpers) — the calls that produced the object, not
+// the calls that produced their arguments.
+func creatingCalls(v ssa.Value) []*ssa.Call {
+	var out []*ssa.Call
+	seen := map[ssa.Value]bool{}
+	var visit func(ssa.Value, int)
+	visit = func(x ssa.Value, depth int) {
+		if x == nil || seen[x] || depth > 30 {
+			return
+		}
+		seen[x] = true
+		switch t := x.(type) {
+		case *ssa.Phi:
+			for _, e := range t.Edges {
+				visit(e, depth+1)
+			}
+		case *ssa.Extract:
+			visit(t.Tuple, depth+1)
+		case *ssa.MakeInterface:
+			visit(t.X, depth+1)
+		case *ssa.ChangeInterface:
+			visit(t.X, depth+1)
+		case *ssa.ChangeType:
+			visit(t.X, depth+1)
+		case *ssa.TypeAssert:
+			visit(t.X, depth+1)
+		case *ssa.UnOp:
+			if al, ok := t.X.(*ssa.Alloc); ok && al.Referrers() != nil {
+				for _, u := range *al.Referrers() {
+					if st, ok := u.(*ssa.Store); ok && st.Addr == ssa.Value(al) {
+						visit(st.Val, depth+1)
+					}
+				}
+			}
+		case *ssa.Parameter:
+			if a := an.Actual(t); a != nil {
+				visit(a, depth+1)
+			}
+		case *ssa.Call:
+			if h := an.StaticCallee(t); h != nil && an.InModule(h) && h.Blocks != nil {
+				for _, ret := range an.Returns(h) {
+					for _, res := range ret.Results {
+						if types.Identical(res.Type(), v.Type()) {
+							visit(res, depth+1)
+						}
+					}
+				}
+				return
+			}
+			out = append(out, t)
+		}
+	}
+	visit(v, 0)
+	return out
 }
